@@ -135,6 +135,8 @@ var specs = []spec{
 	{File: "cluster/hashing.go", Func: "RendezvousHash", Module: "Rendezvous", Ext: true,
 		Structs: []structSpec{{File: "cluster/hashing.go", Name: "ServerScore", InFunc: "RendezvousHash"}},
 		Prims:   []string{"sortFunc", "xxhash.Sum64String=func(s string) uint64"}},
+	// C15: the quota test of ClusterNode.InsertPoints (sum of the shards' point counts + batch size against the plan)
+	quotaInsertSpec,
 	// C18: a parameter struct whose Validate is integer range checks only
 	{File: "models/quantizer.go", Func: "Validate", Recv: "ProductQuantizerParameters", Module: "Validate", Ext: true,
 		Structs: []structSpec{{File: "models/quantizer.go", Name: "ProductQuantizerParameters"}}},
@@ -174,6 +176,16 @@ func distSetSpec(fn string) spec {
 			{File: "shard/index/vamana/distset.go", Name: "DistSetElem"},
 			{File: "shard/index/vamana/distset.go", Name: "DistSet", Caps: []string{"items"}}}}
 }
+
+// the quota test at the head of ClusterNode.InsertPoints: `totalPoints` over the shard infos, then the comparison
+// with the plan's per-collection maximum; the error return is the fragment's failure
+var quotaInsertSpec = spec{File: "cluster/actions.go", Func: "InsertPoints", Recv: "ClusterNode", Module: "Quota", Ext: true, Name: "InsertPoints_quota",
+	Structs: []structSpec{{File: "cluster/actions.go", Name: "shardInfo"}, {File: "models/point.go", Name: "Point"},
+		{File: "models/userplan.go", Name: "UserPlan", Only: []string{"MaxCollectionPointCount"}},
+		{File: "models/collection.go", Name: "Collection", Only: []string{"UserPlan"}}},
+	Consts: []constSpec{{File: "cluster/errors.go", Name: "ErrQuotaReached", As: "ErrQuotaReached"}},
+	Frag: &fragSpec{First: "totalPoints := int64(0)", Last: "if totalPoints+int64(len(points)) >", ErrLast: true,
+		Params: []string{"shards []shardInfo", "points []models.Point", "col models.Collection"}, Results: []string{}}}
 
 // the paging at the end of Shard.SearchPoints
 var pagingSpec = spec{File: "shard/shard.go", Func: "SearchPoints", Recv: "Shard", Module: "Paging", Ext: true, WrapInt: true, Name: "SearchPoints_paging",
